@@ -292,6 +292,11 @@ def run(repo, chk):
 
     # ---------------- A4 scale agreement ---------------------------------------------------
     _scale(repo, chk, gf)
+    if chk.__class__.__name__ == 'Check':
+        # the largest admissible length of each element type keeps the byte size below the signed maximum (global arrays are
+        # validated against it at compile time) - shared with C18.D4
+        from . import c18 as _c18
+        _c18.run(repo, Remap(chk, {'C18.D4': lambda c: 'C04.A4' if c.startswith('max_length') else None}))
 
     # ---------------- A6 library stores -----------------------------------------------------
     _library_stores(repo, chk, gf)
